@@ -19,7 +19,7 @@ chk("C12",
     "built as a C caller would, fixed writer) through write_str and write_char, and seeded random runs of the real runtime "
     "(incl. the Rust-owned writer with allocation accounting from create to destroy) are validated as traces by Trace_Write.tla. The same machine is observed through the GENERATED API: a real bridge whose Rust body logs every write is driven through the "
     "generated C++ method (std::string writer) and C method (diplomat_buffer_write_*) under ASan, and the log including the string "
-    "handed back to the caller (Returned event) must be a behaviour of Write.tla (kind cpp_string grows to exactly the requested length).",
+    "handed back to the caller (Returned event) must be a behaviour of Write.tla (kind cpp_string grows to exactly the requested length). Flush: six method shapes (unit, Result ok/err, Option, and value-returning methods that also take a writer), declared the way the macro compiles them, are called with an exactly-sized fixed buffer and with a caller-supplied writer that counts its flush callbacks (NUL on the last byte; foreign flush exactly once with the final length).",
     "Bounds: chunks of 0-4 bytes, <=4(5) writes, capacities <=8(12). Trusts TLC, rustc, the harness's canary zones "
     "(ASan in the C/C++ leg). Vec/std::string allocation failure aborts and is out of scope.",
     "TLA+ spec + TLC exhaustive model checking + TLAPS proof of the core invariant; spec->impl behaviour replay; impl->spec trace validation",
@@ -47,7 +47,7 @@ chk("C03",
     "re-checked on every run) that AtMostOnce / DroppedMeansOnce / LiveMeansZero hold for any payload and container sets and any number of steps. Every TLC-enumerated quiescent behaviour is replayed "
     "on the real DiplomatResult/DiplomatOption/DiplomatOwnedSlice/DiplomatCallback with drop-counting payloads and a "
     "quarantining allocator (double frees are counted, not UB), comparing drop counters after every step; seeded random "
-    "histories recorded from the real types are validated by Trace_Ownership.tla.",
+    "histories recorded from the real types are validated by Trace_Ownership.tla. The generated-API histories are also rendered through the generated C++ classes (unique_ptr moved, reset, released and re-wrapped; diplomat::result / nullable returns; spans over diplomat_alloc'ed buffers; std::function callbacks owning a move-only state) and include a caller-owned diplomat_simple_write buffer filled exactly to its last byte and read back with strlen.",
     "Foreign code is assumed to honour its contract (no use after destroy). Bounds as stated. Trusts TLC, rustc, the harness's "
     "allocator instrumentation. The generated C/C++ API under ASan is exercised by the compile-and-run leg.",
     "TLA+ spec + TLC exhaustive model checking; spec->impl behaviour replay; impl->spec trace validation",
@@ -61,7 +61,7 @@ chk("C05",
     "cases) / depth 3 (thorough, ~40k cases); two negative models must be refuted. Every emitted case is rendered to a bridge "
     "module and lowered by the real diplomat_core for each distinct probed backend profile and both settings of "
     "unsafe_references_in_callbacks; verdicts must match, and error contexts of rejected cases must name the offending "
-    "Type / Type::method. Disagreements are re-run in isolation before being reported.",
+    "Type / Type::method. Disagreements are re-run in isolation before being reported. Errors carry the offending item as context also ACROSS items: a context that exists only when other items are lowered before (batch) and not when the item is lowered alone is a violation.",
     "Bounded grammar (no traits-with-methods, no 128-bit, lifetimes limited to one named/elided/'static). Backend profiles are "
     "probed black-box from the tool binary. Implied-bound restating (last clause) is checked with C04's lifetime model: C05 itself "
     "replays the two-parameter signatures that use one bounded struct twice (spec/life/bounds_2p.cfg), C04 the single-use ones.",
@@ -79,7 +79,7 @@ chk("C13",
     "and to the attribute-free output otherwise; disabled items' files and symbol references must be absent, renames rendered in "
     "cpp/js/dart/nanobind and never inherited module->method; nm of the compiled crate shows every function still exported. "
     "`Remaining` (a disabled item leaves no trace): for a disabled comparison, iterator, stringifier and a method with a signature "
-    "half of the backends cannot lower, each backend's output must equal that of the program in which the method was never written.",
+    "half of the backends cannot lower, each backend's output must equal that of the program in which the method was never written. The conditional attribute is also written AFTER the item's own auto-gated marker (attributes of one item are independent).",
     "Backend name sets are fixed from the book and checked against the probe; option/callbacks/traits/static_slices support "
     "is cross-checked against observed acceptance behaviour; other support flags are taken from the probe. demo_gen's bundled "
     "js/ subtree is the js backend's output and follows the js truth value.",
@@ -96,7 +96,7 @@ chk("C04",
     "TLAPS for any lifetime set, signature and schedule (38 obligations, re-checked on every run). Every TLC-enumerated signature (59k for 2 lifetimes / 1 "
     "parameter; thorough adds 2-parameter and 3-lifetime families) is rendered and run through the real lowering and "
     "Method::borrowing_param_visitor: verdicts and edge lists must match exactly. For a seeded sample the real js, dart, kotlin "
-    "and nanobind backends are run and their emitted edge arrays / keep_alive policies must contain MustKeep.",
+    "and nanobind backends are run and their emitted edge arrays / keep_alive policies must contain MustKeep. Static signatures returning a boxed borrowing opaque are re-rendered as nanobind constructors (nurse 1 = the new object, arguments numbered from 2).",
     "Parameters whose only qualifying lifetime is 'static are don't-care. Returned &str is copied by kotlin/nanobind (exempt "
     "from the emission leg). Backend emission is parsed from generated text; JS/Dart/Kotlin/Python are not executed here.",
     "TLA+ spec + TLC model checking of a GC machine; spec->impl replay of every generated signature through the real analysis",
@@ -111,7 +111,7 @@ chk("C15",
     "x 7 backends x config variants (js.abi legacy/spec, kotlin finalizers, lib_name, demo_gen explicit_generation / "
     "hide_default_renderer / module_name), special-method markers accepted by Special.tla, demo attributes. Lowering success is established "
     "in-process with the probed profile; a panic of the binary afterwards is bisected to single shapes and reported by panic "
-    "site, message and shape.",
+    "site, message and shape. A hand-listed family carries every rust_link kind with minimal, longer and too-short paths on a type and a method.",
     "Required config is always supplied; 128-bit integers are excluded as documented. Ten classes of genuine crashes found on "
     "the unchanged tree are recorded in known_findings.json keyed by backend, panic site, message and a shape pattern; any other "
     "site, message, backend or shape is a VIOLATION.",
@@ -128,7 +128,7 @@ chk("C14",
     "byte-identical as the action's frame condition demands (all files; or all files except the inserted type's and the per-crate "
     "aggregate files). A longer and then a shorter revision are generated into the SAME output directory and compared with a fresh "
     "directory (the output must not depend on what an earlier run left behind). A separate step inserts a whole bridge module whose enum, struct and opaque are NAMED like base-program "
-    "types (told apart by namespace or rename): every base file must be reproduced byte for byte.",
+    "types (told apart by namespace or rename): every base file must be reproduced byte for byte. A command-line leg re-runs every backend in fresh processes with several --docs-base-urls entries (some for crates whose name is a prefix of a linked crate's) and with the entries in the opposite order.",
     "3-type base program (opaque, struct, enum across two bridge modules) + 2 unrelated types + 5 kinds of non-bridge items; "
     "12 (150) histories of 6 steps. Aggregate files are exempt only for insert/remove.",
     "TLA+ spec + TLC (action properties) ; spec->impl replay of TLC-generated edit histories through the real binary",
@@ -146,7 +146,7 @@ chk("C17",
     "spec/config/ConfigKeys.tla adds two DIFFERENT keys of one backend (KeysIndependent: assigning one key never changes another; "
     "negative model refuted) and all 64 assignments are replayed for demo_gen.relative_js_path+module_name and "
     "kotlin.domain+lib_name, with both command-line orders and, for the attribute source, on two items or stacked on one; "
-    "ConfigKeysProof.tla proves KeysIndependent with TLAPS for any set of keys.",
+    "ConfigKeysProof.tla proves KeysIndependent with TLAPS for any set of keys. String settings are also assigned the EMPTY string on the command line (a bare key=), which wins over the file like any other value.",
     "Distinct values per source make the winner observable; two-valued settings are run once per candidate winner. A required key "
     "left unset ends the run with 'Missing required field' (usage error).",
     "TLA+ spec + TLC; spec->impl replay of every assignment through the real binary",
@@ -172,7 +172,7 @@ chk("C07",
     "combinations of <=3 parameters) is rendered to one bridge and the real dart and kotlin backends are run; their @ffi.Native "
     "declarations / ffi.Struct mirrors and JNA Library interfaces / Structure classes are parsed into shape trees through fixed "
     "vocabulary tables and compared slot by slot with the spec (parameter count and order, width, signedness, float kind, "
-    "pointer vs by-value, record shapes, field order).",
+    "pointer vs by-value, record shapes, field order). Extra structs outside the shared catalogue (optional slices and strings as FIELDS) are rendered for Dart.",
     "No Dart/Kotlin toolchain: declarations are compared statically; dart:ffi and JNA are trusted to marshal as documented. "
     "Kotlin vocabulary: code point = Int, bool in fields/returns = Byte, empty unions occupy no storage. The same Abi.tla "
     "shapes are validated dynamically against rustc + gcc by C01.",
@@ -198,7 +198,7 @@ chk("C01",
     "over three traits of 1-3 methods): {data, vtable {destructor, SIZE, ALIGNMENT, entry points}} built by the C caller, every "
     "scripted method invocation crosses like a callback (tagged with the method), the data pointer must arrive unchanged, the "
     "vtable entry types must equal the spec's native signatures, the destructor runs exactly once. The catalogue's enum carries "
-    "#[repr(align(1))]: the macro must force #[repr(C)] regardless.",
+    "#[repr(align(1))]: the macro must force #[repr(C)] regardless. A method taking a DiplomatWrite and returning a value (SigShape: the writer is the last parameter whatever the result is; Mode wval of MC_Abi) is compared at declaration level only: the tool accepts it and drops the writer from every declaration, recorded as a known finding.",
     "x86-64 SysV, gcc 12. Pointers are compared between the two sides. &str arguments are valid UTF-8 (caller's obligation).",
     "TLA+ spec + TLC; spec->impl replay (compiled and executed) and impl->spec trace validation",
     "DESIGN.md §5 C01")
@@ -232,7 +232,7 @@ chk("C02",
     "types renamed (the driver reaches them through aliases). Operators leg: the operators the C++ backend derives from "
     "special-method markers (six relational operators from one `comparison` method, + - * / and compound assignments, operator[] "
     "for `indexer`, range-for over an `iterable`) must agree with the marked Rust methods on a 7x7 grid incl. i32 extremes; the "
-    "expected truth tables come from spec/special/Special.tla (RelHolds, ArithOp; TLC checks RelLaws).",
+    "expected truth tables come from spec/special/Special.tla (RelHolds, ArithOp; TLC checks RelLaws). Every string-returning method is called twice in a row; both observations must be equal and correct.",
     "x86-64, g++ 12. result<const T&, Utf8Error> combinations are skipped by the driver generator.",
     "TLA+ spec + TLC; spec->impl replay (compiled and executed, two C++ standards) and impl->spec trace validation",
     "DESIGN.md §5 C02")
@@ -247,7 +247,7 @@ chk("C11",
     "FromFFI/method round trip, the JS module executed in node (ffiValue, name, lookup by number, method round trip by value and "
     "Option<Self> read back from wasm memory) must agree; "
     "for dart, kotlin and nanobind the tables and the chosen scheme are parsed from the generated text and interpreted by the "
-    "spec's scheme model (position scheme only where Contiguous holds).",
+    "spec's scheme model (position scheme only where Contiguous holds). Every third variant of the generated enums is documented; the Dart text is read with comments stripped.",
     "Dart, Kotlin and Python are not executed. JS runs with a stub wasm module (identity exports; `opt` writes Some(v) into the receive buffer).",
     "TLA+ spec + TLC; spec->impl replay compiled/executed (rustc, gcc, g++, node) and scheme interpretation for dart/kotlin/nanobind",
     "DESIGN.md §5 C11")
